@@ -24,6 +24,13 @@ pub fn parse_files(state: &mut CompilationState, symbols: &HashSet<String>) {
         let mut diagnostics = Diagnostics::new();
         parse_file(file, &mut state.ast, &mut diagnostics, symbols.clone());
 
+        // If the file failed to parse, some of its elements can be left in the AST without the containers they belong to
+        // (the parser adds members to the AST before their containers are complete). Lints reported for such elements
+        // must not lead back to them.
+        if diagnostics.has_errors() {
+            diagnostics.clear_scopes();
+        }
+
         // Store any diagnostics that were emitted during parsing.
         state.diagnostics.extend(diagnostics);
     }
